@@ -40,7 +40,7 @@ type Report struct {
 	GoStatements    []string       `json:"go_statements"`          // in the main module
 	SyncImports     []string       `json:"sync_imports"`           // in the main module
 	RandImports     []string       `json:"rand_imports"`           // in the main module
-	GenericMapRange []string       `json:"generic_map_range_skip"` // range over type-parameter typed maps (not rewritten)
+	GenericMapRange []string       `json:"generic_map_range_sites"` // range over type-parameter typed maps (rewritten as well)
 	Modules         []string       `json:"instrumented_modules"`
 	Packages        int            `json:"packages"`
 	FilesRewritten  int            `json:"files_rewritten"`
@@ -298,13 +298,18 @@ func (r *rewriter) run() {
 			if t == nil {
 				break
 			}
+			isMap := false
 			if _, ok := t.(*types.TypeParam); ok {
+				// a type parameter whose core type is a map (x/exp/maps.Keys: M ~map[K]V):
+				// MapSeq's own constraint ~map[K]V lets inference go through
 				if u, ok := t.Underlying().(*types.Interface); ok && coreIsMap(u) {
 					r.rep.GenericMapRange = append(r.rep.GenericMapRange, r.site(n.Pos()))
+					isMap = true
 				}
-				break
+			} else if _, ok := t.Underlying().(*types.Map); ok {
+				isMap = true
 			}
-			if _, ok := t.Underlying().(*types.Map); ok {
+			if isMap {
 				s := r.site(n.Pos())
 				n.X = &ast.CallExpr{Fun: r.sim("MapSeq"), Args: []ast.Expr{n.X, &ast.BasicLit{Kind: token.STRING, Value: strconv.Quote(s)}}}
 				r.rep.MapRangeSites = append(r.rep.MapRangeSites, s)
